@@ -13,10 +13,48 @@
 
 mod fam_buffers;
 mod fam_options;
+mod fam_wire;
 mod supervisor;
 mod util;
 
 use serde_json::Value;
+use std::alloc::{GlobalAlloc, Layout, System};
+use std::sync::atomic::{AtomicUsize, Ordering};
+
+/// A global allocator that remembers the largest single request that was granted while tracking is on. It lets the
+/// decoding families observe whether memory is claimed according to what the input merely announces (C11).
+pub struct Counting;
+pub static MAX_GRANTED: AtomicUsize = AtomicUsize::new(0);
+
+unsafe impl GlobalAlloc for Counting {
+    unsafe fn alloc(&self, l: Layout) -> *mut u8 {
+        let p = System.alloc(l);
+        if !p.is_null() {
+            MAX_GRANTED.fetch_max(l.size(), Ordering::Relaxed);
+        }
+        p
+    }
+    unsafe fn alloc_zeroed(&self, l: Layout) -> *mut u8 {
+        let p = System.alloc_zeroed(l);
+        if !p.is_null() {
+            MAX_GRANTED.fetch_max(l.size(), Ordering::Relaxed);
+        }
+        p
+    }
+    unsafe fn dealloc(&self, p: *mut u8, l: Layout) {
+        System.dealloc(p, l)
+    }
+    unsafe fn realloc(&self, p: *mut u8, l: Layout, new_size: usize) -> *mut u8 {
+        let q = System.realloc(p, l, new_size);
+        if !q.is_null() {
+            MAX_GRANTED.fetch_max(new_size, Ordering::Relaxed);
+        }
+        q
+    }
+}
+
+#[global_allocator]
+static GLOBAL: Counting = Counting;
 
 /// What a family reports for one case.
 pub struct Outcome {
@@ -38,6 +76,7 @@ pub fn make_family(name: &str) -> Option<Box<dyn Family>> {
     match name {
         "options" => Some(Box::new(fam_options::Options::default())),
         "buffers" => Some(Box::new(fam_buffers::Buffers::default())),
+        "wire" => Some(Box::new(fam_wire::Wire::default())),
         _ => None,
     }
 }
@@ -71,6 +110,14 @@ fn record_main(family: &str, rest: &[String]) -> i32 {
     match family {
         "options" => {
             fam_options::record(arg_u64(rest, "n", 1000));
+            0
+        }
+        "wire" => {
+            fam_wire::record(arg_u64(rest, "n", 1000));
+            0
+        }
+        "decoder" => {
+            fam_wire::record_dec(arg_u64(rest, "n", 1000));
             0
         }
         "buffers" => {
